@@ -4,6 +4,7 @@ package main
 
 import (
 	"fmt"
+	"strings"
 	"go/types"
 	"math/big"
 
@@ -80,6 +81,7 @@ type Val struct {
 	Builtin string
 	Iter    *Cell // range iterator state
 	IterOf  *Val
+	NilIf   Term   // for a static pointer with P != nil: the condition under which it is nil (zero Term: never)
 	Poison  string // merge of incompatible (dead) values: an error only if used
 	LValue  bool // produced by a contract expression: the address stands for the value stored there
 }
@@ -132,23 +134,20 @@ func (vc *VC) zeroTerm(s *Sort) Term {
 func (vc *VC) DeclareFunOnce(name string, args []*Sort, res *Sort) { vc.DeclareFun(name, args, res) }
 
 func (vc *VC) StrConst(s string) Term {
-	vc.StrSort()
-	if n, ok := vc.strConsts[s]; ok {
-		return Atom(n, SStr)
+	var b strings.Builder
+	b.WriteByte('"')
+	for _, r := range s {
+		switch {
+		case r == '"':
+			b.WriteString(`""`)
+		case r < 32 || r > 126 || r == '\\':
+			fmt.Fprintf(&b, "\\u{%x}", r)
+		default:
+			b.WriteRune(r)
+		}
 	}
-	name := fmt.Sprintf("str!%d", len(vc.strConsts))
-	// distinctness of string constants
-	var others []string
-	for _, o := range vc.strConsts {
-		others = append(others, o)
-	}
-	vc.strConsts[s] = name
-	vc.declared[name] = true
-	vc.items = append(vc.items, item{kind: itDecl, name: name, text: fmt.Sprintf("(declare-const %s GoStr) ; %q", name, truncate(s, 40)), syms: map[string]bool{}})
-	for _, o := range others {
-		vc.Assume(Not(Eq(Atom(name, SStr), Atom(o, SStr))), "distinct string constants")
-	}
-	return Atom(name, SStr)
+	b.WriteByte('"')
+	return Term{S: b.String(), Sort: SStr}
 }
 
 // readPath reads the sub-value of root at path.
@@ -221,9 +220,47 @@ func subT(a, b Term) Term {
 	return App(a.Sort, "-", a, b)
 }
 
+// ratOf: the value of a numeric literal term
+func ratOf(t Term) (*big.Rat, bool) {
+	if t.K != nil {
+		return new(big.Rat).SetInt(t.K), true
+	}
+	if t.Sort == nil || t.Sort.Kind != KReal || len(t.S) > 80 {
+		return nil, false
+	}
+	forms, err := parseSx(t.S)
+	if err != nil || len(forms) != 1 {
+		return nil, false
+	}
+	if !literalOnly(forms[0]) {
+		return nil, false
+	}
+	return modelRat(forms[0])
+}
+
+func literalOnly(v *sx) bool {
+	if v.list == nil {
+		return len(v.atom) > 0 && (v.atom[0] >= '0' && v.atom[0] <= '9')
+	}
+	if len(v.list) == 0 || (v.list[0].atom != "/" && v.list[0].atom != "-") {
+		return false
+	}
+	for _, e := range v.list[1:] {
+		if !literalOnly(e) {
+			return false
+		}
+	}
+	return true
+}
+
 func leT(a, b Term) Term {
 	if a.K != nil && b.K != nil {
 		return BoolT(a.K.Cmp(b.K) <= 0)
+	}
+	if ra, ok := ratOf(a); ok {
+		if rb, ok := ratOf(b); ok {
+			return BoolT(ra.Cmp(rb) <= 0)
+		}
 	}
 	return App(SBool, "<=", a, b)
 }
@@ -231,6 +268,11 @@ func leT(a, b Term) Term {
 func ltT(a, b Term) Term {
 	if a.K != nil && b.K != nil {
 		return BoolT(a.K.Cmp(b.K) < 0)
+	}
+	if ra, ok := ratOf(a); ok {
+		if rb, ok := ratOf(b); ok {
+			return BoolT(ra.Cmp(rb) < 0)
+		}
 	}
 	return App(SBool, "<", a, b)
 }
